@@ -132,7 +132,18 @@ func streamCwt(c *ctx) {
 		pe, pn, pi := false, false, false
 		typeErr := false
 		put := func(label int, u uint64) (*big.Int, bool) {
-			switch c.r.intn(12) {
+			switch c.r.intn(14) {
+			case 12, 13:
+				// a CBOR bignum (tag 2) as the generic decoder yields it: the value whose low 64 bits are u. A time claim
+				// is a uint64; anything above is not one and must not be read modulo 2^64
+				b := new(big.Int).Add(new(big.Int).Lsh(big.NewInt(int64(1+c.r.intn(3))), 64), new(big.Int).SetUint64(u))
+				if c.r.bool() {
+					m[label] = *b
+				} else {
+					m[label] = b
+				}
+				typeErr = true
+				return nil, true
 			case 0:
 				return nil, false // absent
 			case 1:
